@@ -766,6 +766,35 @@ fn main() {
             run_long(*n, lx)
         },
     );
+    // a NaN compared with itself: count_eq / count_neq when both operands are the same array (or views of it)
+    rep.run_sub(
+        "nan-against-itself",
+        "every f64 array of length 1..=4 over {0, 1, NaN} compared with itself, with a view of itself and with its own reversed view: count_eq counts the positions whose two elements are equal (a NaN is not equal to itself), count_eq + count_neq is the length",
+        (1..=4usize).flat_map(|n| sequences(n, 3)),
+        |d, lx| {
+            lx.nontrivial(d.contains(&2));
+            lx.single(|lx| {
+                let v: Vec<f64> = d.iter().map(|&x| [0.0, 1.0, f64::NAN][x as usize]).collect();
+                let a = Array1::from(v.clone());
+                let n = v.len();
+                let want_self = v.iter().filter(|x| **x == **x).count();
+                let want_rev = (0..n).filter(|&i| v[i] == v[n - 1 - i]).count();
+                let rev = a.slice(ndarray::s![..;-1]);
+                let r = guarded(|| (a.count_eq(&a), a.count_neq(&a), a.view().count_eq(&a.view()), a.view().count_eq(&rev), a.view().count_neq(&rev)));
+                match r {
+                    Ok((Ok(e1), Ok(n1), Ok(e2), Ok(e3), Ok(n3))) => {
+                        lx.check(e1 == want_self && e2 == want_self && e1 + n1 == n, "C09/count-eq", || format!("{:?} against itself: count_eq = {} (views: {}), count_neq = {}, expected {} equal positions", v, e1, e2, n1, want_self));
+                        lx.check(e3 == want_rev && e3 + n3 == n, "C09/count-eq", || format!("{:?} against its reversed view: count_eq = {}, count_neq = {}, expected {} equal positions", v, e3, n3, want_rev));
+                        hash_of(&(e1, e3))
+                    }
+                    other => {
+                        lx.fail("C09/failed", || format!("{:?}: {:?}", v, other.map(|_| ())));
+                        0
+                    }
+                }
+            });
+        },
+    );
     // infinite elements and squares that overflow
     let nf = (1..=3usize).flat_map(|n| sequences(n, 6).flat_map(move |a| sequences(n, 6).map(move |b| (a.clone(), b))));
     rep.run_sub(
